@@ -99,8 +99,12 @@ def oracle_malformed(case):
 
 # ------------------------------------------------------------------------------------------------ training
 @st.composite
-def train_case(draw):
-    s = draw(E.est_spec(n_max=14, d_max=3, iter_max=3, k_max=3, hidden_max=3, n_min=3))
+def train_case(draw, path=False):
+    if path:
+        s = draw(E.est_spec(classes=E.SPARSE, n_max=14, d_max=4, iter_max=2, k_max=3, hidden_max=3, n_min=4, d_min=2))
+        s["alpha"] = draw(st.sampled_from([0.5, 2.0, 0.1]))
+    else:
+        s = draw(E.est_spec(n_max=14, d_max=3, iter_max=3, k_max=3, hidden_max=3, n_min=3))
     s["x"]["xkind"] = "normal"
     bias_batch(draw, s)
     n = s["n"]
@@ -109,7 +113,11 @@ def train_case(draw):
                           min_size=1, max_size=8))
     ml = [[i, j] for i, j in pairs if groups[i] == groups[j]]
     cl = [[i, j] for i, j in pairs if groups[i] != groups[j]]
-    return {"spec": s, "ml": ml, "cl": cl, "factor": draw(st.sampled_from([0.5, 1.0, 3.0]))}
+    out = {"spec": s, "ml": ml, "cl": cl, "factor": draw(st.sampled_from([0.5, 1.0, 3.0]))}
+    if path:
+        out["path"] = {"alpha_multiplier": draw(st.sampled_from([3.0, 1.5])), "min_features": draw(st.integers(1, 2)),
+                       "max_patience": draw(st.integers(1, 2))}
+    return out
 
 
 def oracle_train(case):
@@ -170,7 +178,10 @@ def oracle_train(case):
         warnings.simplefilter("ignore")
         with np.errstate(all="ignore"):
             try:
-                est.fit(X, y)
+                if "path" in case:
+                    est.path(X, y, **case["path"])
+                else:
+                    est.fit(X, y)
             except Violation:
                 raise
             except Exception as e:
@@ -185,4 +196,5 @@ def subs():
         Sub("validation", valid_case(), oracle_valid, 4000, 100000, "acceptance <=> union-find consistency"),
         Sub("malformed", malformed_case(), oracle_malformed, 300, 3000, "scalars, flat lists, single columns"),
         Sub("training", train_case(), oracle_train, 800, 15000, "gradient injection observed under the decoration"),
+        Sub("training_path", train_case(path=True), oracle_train, 250, 5000, "same, through path() of decorated sparse models"),
     ]
